@@ -8,14 +8,18 @@ for mp in sorted(glob.glob(V + '/seeded/C*/meta.json')):
     res = m.get('checks_run_against_it', {})
     caught = [(p, r) for p, r in res.items() if isinstance(r, dict) and r.get('caught')]
     missed = [p for p, r in res.items() if isinstance(r, dict) and not r.get('caught')]
-    by = '; '.join('%s: %s' % (p, ', '.join(sorted(set(v.split()[0] for v in r.get('violations', []))))) for p, r in caught)
+    by = '; '.join('%s%s: %s' % (p, ' (thorough tier)' if '--tier thorough' in r.get('cmd', '') else '', ', '.join(sorted(set(v.split()[0] for v in r.get('violations', []))))) for p, r in caught)
     rows.append('| %s | %s | %s | %s |' % (m['id'], m['needs_to_manifest'].replace('|', '/'), ('**caught** by ' + by) if caught else 'missed', ', '.join(missed) if caught and missed else ('' if caught else 'checks run: ' + ', '.join(missed))))
 ncaught = sum('**caught**' in r for r in rows)
 sec = ['<!-- SEEDS-BEGIN -->', '## 0b. Seeded changes (independent sub-agents) and which checks catch them', '',
        'Each change was written by a fresh sub-agent that saw only the property text and its own scratch worktree (nothing from /verif); each compiles, passes the whole',
        'test suite and comes with a demonstration. I confirmed every kept change myself (`tools/confirm_seed.sh`: scratch worktree, patch, build, demonstration fails, full `ctest` passes,',
        'unpatched demonstration passes; worktree removed). `tools/seed_matrix.py` applies each patch to a scratch worktree (`VERIF_REPO`) and runs the registered quick checks; the outcome is',
-       'recorded in `seeded/<id>/meta.json`. %d of %d kept changes are caught by a quick check.' % (ncaught, len(rows)), '',
+       'recorded in `seeded/<id>/meta.json`. Three rounds: 24 changes (two per property for 12 properties), then 16 for the remaining 8 properties, then 12 more (ids `C..b`) for six',
+       'properties with the instruction to use other functions and mechanisms than the first round. %d of %d kept changes are caught (one only by a thorough-tier harness, marked).' % (ncaught, len(rows)),
+       'Changes of rounds 2 and 3 that the checks of that moment missed led to targeted harnesses (h_payout, h_retarget past the boundary, h_reload boundary endorsement, h_mempool_vbktie /',
+       '_timely / _pair / _stale2, h_reuse, h_toy4 / h_toyfork, h_realinv, h_realbody, h_realctx, h_realrefs, the mid-fork case of h_realsp_unequal, the pruned side block of h_realfin);',
+       'the outcome column is the result AFTER those additions. C17-v1 needs two threads racing on a cold progpow epoch: outside what this technique family decides here.', '',
        '| seed | needs, to manifest | outcome (quick tier) | registered checks that stay silent |', '|---|---|---|---|'] + rows + ['', '<!-- SEEDS-END -->']
 p = V + '/DESIGN.md'
 s = open(p).read()
